@@ -28,6 +28,8 @@ func runC02(r *engine.Run) {
 	r.Rule("AGREE-fields", "see C14: writer and reader of each node encoding agree (the root commits to what can be decoded back)")
 	r.Rule("LOCK-mpt", "see C16: root, the stores' maps and level links and the collector's maps are accessed only with their owner's mutex held in the required mode (a writer under the read lock, or on a root read outside the lock, loses another writer's update)")
 	r.Rule("ORDER-critical", "see C16: Insert, Delete, MergeChanges and MergeDB are one critical section each, from the first read of the root to its last update")
+	r.Rule("CLONE-complete", "see C14: CloneNode gives its copy every field of the node (a cached child count that the copy lacks makes deletes through a second handle skip every collapse: the root then depends on which handle ran the history)")
+	r.Rule("AGREE-kindtag", "the hash pre-images of the node kinds live in disjoint spaces: GetHashBytes of every kind writes a kind-distinguishing constant (a constant byte, the serialization prefix, a type code) into the hashed buffer besides the origin and encode() - without it an extension and a leaf with equal prefix/path bytes are one node and two different contents share a root")
 	r.Rule("FRESH-bytes", "see C03: the byte slices handed out by the node and value accessors (MarshalMsg, Encode, GetHashBytes, GetValueBytes) are new buffers on every return - a caller that writes into what a lookup or an encoder handed out would otherwise change a stored value behind its hash, and the root would no longer be a function of the content")
 	r.NotDec = append(r.NotDec, "equality with an independent implementation for every content", "full history independence (canonical restructuring is value-level)", "collision resistance of the hash")
 	agreeHash(r, "AGREE-hash")
@@ -42,6 +44,8 @@ func runC02(r *engine.Run) {
 	agreeFields(r)
 	mptLockDiscipline(r)
 	freshBytes(r, "FRESH-bytes")
+	agreeKindTag(r, "AGREE-kindtag")
+	cloneComplete(r, "CLONE-complete")
 }
 
 var trieNodeTypes = []string{"LeafNode", "FullNode", "ExtensionNode"}
